@@ -17,7 +17,12 @@ with the cache, the transaction log and the database as event sources (corowalk.
       cache; Err => the error is returned and nothing is put into the cache
   F1  `flush_cache` flushes the cache whenever there is one
 
-`batch_get` (hash-set bookkeeping in a loop) and `TimedCache` itself are outside this kernel.
+  G3  `batch_get`: the cache is written only with the vector a successful database read returned
+      (never with records served from the transaction log or the cache), and a failed database
+      read is returned as an error (loop bodies executed at most once; which keys are asked of the
+      database - the hash-set bookkeeping - is not decided)
+
+`TimedCache` itself is outside this kernel.
 """
 import time
 
@@ -231,7 +236,44 @@ def run_obligation(ob, tier, seed, funcs):
                     fails.append("G2: get caches a record although the database read failed")
                 if sat(p.cond, z3.Not(dok), ret_ok):
                     fails.append("G2: get returns Ok although the database read failed")
-        # a path that caches on a successful miss must exist when there is a cache
+        # ---- batch_get --------------------------------------------------------------------------------
+        f = _body(funcs, "batch_get")
+        if f is None:
+            return {"engine": "mir", "verdict": "inconclusive", "reason": "StorageManager::batch_get not found in the MIR dump", "wall_s": 0, "queries": 0}
+        w = corowalk.CoWalker(f, max_steps=200000)
+        w.loop_bound = 1
+        paths = [p for p in w.run() if not (p.panic and "resumed after" in p.panic)]
+        stats["batch_get"] = len(paths)
+        saw_fill = False
+        for p in paths:
+            if p.panic:
+                continue
+            names = [e[0] for e in p.events]
+            db_i = [i for i, n in enumerate(names) if n.endswith("Database>::batch_get")]
+            put_i = [i for i, n in enumerate(names) if n.endswith("TimedCache::batch_put") or n.endswith("TimedCache::put")]
+            for i in put_i:
+                before = [j for j in db_i if j < i]
+                if not before:
+                    fails.append("G3: batch_get writes to the cache without having read the database")
+                    continue
+                dres = p.events[before[-1]][3]
+                dok = p.events[before[-1]][2]
+                arg = strip(p.events[i][1][1]) if len(p.events[i][1]) > 1 else None
+                if sat(p.cond, z3.Not(dok)):
+                    fails.append("G3: batch_get caches records although the database read failed")
+                if not (isinstance(dres, Agg) and arg == dres.fields["Ok"][0]):
+                    fails.append("G3: batch_get caches something else (%r) than the records the database returned" % (arg,))
+                else:
+                    saw_fill = True
+            res = ready(p)
+            if db_i and isinstance(res, Agg) and res.kind == "Result":
+                dok = p.events[db_i[-1]][2]
+                rok = res.fields["ok"]
+                ret_ok = z3.BoolVal(rok) if isinstance(rok, bool) else rok
+                if sat(p.cond, z3.Not(dok), ret_ok):
+                    fails.append("G3: batch_get returns Ok although the database read failed")
+        if not saw_fill:
+            fails.append("witness: no path of batch_get fills the cache from a database read (walker too coarse)")
         # ---- flush ---------------------------------------------------------------------------------
         f = _body(funcs, "flush_cache")
         if f is not None:
